@@ -59,13 +59,19 @@ def main():
     root = tempfile.mkdtemp(prefix="zcsim-seed-")
     try:
         os.rmdir(root)
-        shutil.copytree(REPO, root, ignore=shutil.ignore_patterns(
-            "__pycache__", ".git", "*.egg-info", ".tox", "build", "SEED"))
+        # a scratch git worktree of /repo's HEAD (outside /repo and /verif):
+        # 'git apply --3way' can then merge a patch that was written against
+        # an earlier commit (seeds outlive later fix: commits)
+        subprocess.run(["git", "-C", REPO, "worktree", "add", "-q",
+                        "--detach", root, "HEAD"], check=True)
         rc, out = run([PY, demo], {"PYTHONPATH": os.path.join(root, "src")},
                       cwd=root)
         meta["steps"]["demo_unpatched"] = {"exit": rc,
                                            "tail": out.strip()[-300:]}
         rc, out = run(["git", "apply", "--verbose", patch], cwd=root)
+        if rc != 0:
+            rc, out = run(["git", "apply", "--3way", patch], cwd=root)
+            meta["applied_with_3way_merge"] = (rc == 0)
         meta["steps"]["apply"] = {"exit": rc, "tail": out.strip()[-300:]}
         if rc != 0:
             print(json.dumps(meta, indent=1))
@@ -112,7 +118,11 @@ def main():
         meta["detected_by"] = sorted(
             p for p, v in meta["steps"]["checks"].items() if v["exit"] == 1)
     finally:
+        subprocess.run(["git", "-C", REPO, "worktree", "remove", "--force",
+                        root], capture_output=True)
         shutil.rmtree(root, ignore_errors=True)
+        subprocess.run(["git", "-C", REPO, "worktree", "prune"],
+                       capture_output=True)
     notes = os.path.join(seed, "notes.md")
     if os.path.exists(notes):
         with open(notes) as f:
